@@ -172,9 +172,13 @@ func (p *Processor) ChargingDataCreate(
 	ue.NotifyUri = chargingData.NotifyUri
 
 	consumerId := chargingData.NfConsumerIdentification.NFName
+	// the counter is incremented by OpenCDR under the context lock: read it under that lock as well
+	self.Lock()
+	localRecordSequenceNumber := self.LocalRecordSequenceNumber
+	self.Unlock()
 	if !chargingData.OneTimeEvent {
 		// the "-" keeps the counter apart from a consumer name that ends in digits
-		chargingSessionId = ueId + consumerId + "-" + strconv.Itoa(int(self.LocalRecordSequenceNumber))
+		chargingSessionId = ueId + consumerId + "-" + strconv.Itoa(int(localRecordSequenceNumber))
 	}
 	cdr, err := p.OpenCDR(chargingData, ue, chargingSessionId, false)
 	if err != nil {
